@@ -2,7 +2,7 @@
    go/types on this run (Gen_FilterTables.v, Gen_FilterPreds.v). *)
 From Coq Require Import List ZArith Bool String Lia.
 From RG.Base Require Import Outcome.
-From RG.Filters Require Import FilterIR FilterAlgebra Predicates ExprFacts FileFacts.
+From RG.Filters Require Import FilterIR FilterAlgebra Predicates ExprFacts FileFacts ValueSources.
 From RGW Require Import Gen_FilterTables Gen_FilterPreds.
 Import ListNotations.
 Local Open Scope string_scope.
@@ -132,4 +132,10 @@ Proof. vm_compute. reflexivity. Qed.
 
 Lemma imports_closure_ok :
   match assoc "makeFileImportsFilter" gen_ctors with Some ci => String.eqb (ci_cond ci) doc_imports_closure | None => false end = true.
+Proof. vm_compute. reflexivity. Qed.
+
+(* where the Text of a capture comes from: nodeText (the bounds test of the extent: start inside the file, end not behind it,
+   start not behind the end), fileBytes, the printer fallback and every assignment to the nodeText field are the audited ones from
+   which ValueSources.node_text is transcribed *)
+Lemma text_source_ok : value_sources_okb gen_value_sources = true.
 Proof. vm_compute. reflexivity. Qed.
